@@ -674,10 +674,15 @@ func (b *pickfirstBalancer) updateSubConnState(sd *scData, newState balancer.Sub
 			// TRANSIENT_FAILURE until it's READY. See A62.
 			if sd.effectiveState != connectivity.TransientFailure {
 				sd.effectiveState = connectivity.Connecting
-				b.updateBalancerState(balancer.State{
-					ConnectivityState: connectivity.Connecting,
-					Picker:            &picker{err: balancer.ErrNoSubConnAvailable},
-				})
+				// A SubConn created by a resolver update that arrived while the
+				// balancer was in TRANSIENT_FAILURE starts out IDLE; the balancer
+				// still stays in TRANSIENT_FAILURE until a SubConn is READY.
+				if b.state != connectivity.TransientFailure {
+					b.updateBalancerState(balancer.State{
+						ConnectivityState: connectivity.Connecting,
+						Picker:            &picker{err: balancer.ErrNoSubConnAvailable},
+					})
+				}
 			}
 		case connectivity.TransientFailure:
 			sd.lastErr = newState.ConnectionError
